@@ -1758,6 +1758,9 @@ if PYARROW_INSTALLED and PANDAS_2_0_0_PLUS:
         )
         precision: int = 28
         scale: int = 0
+        # the rounding mode is not part of a pyarrow decimal type: it must not be
+        # captured from the ambient decimal context when the type is created
+        rounding: Optional[str] = None
 
         def __post_init__(self):
             type_ = pd.ArrowDtype(
